@@ -120,3 +120,18 @@ let handle (x : t) : (int * string list) option =
   match x with
   | L [I 16; cap; ops; r] -> Some (cmd_buffers cap ops r)
   | _ -> handle x
+
+(* (17 cap k (applied indices))   the controller holds entry 1 and is busy while k more entries arrive;
+   what it applies afterwards is fst (Watcher.busy_burst_outcome cap k) *)
+let cmd_burst cap k applied =
+  let applied = d_list d_int applied in
+  let (m, lost) = busy_burst_outcome (nat_of_int (d_int cap)) (nat_of_int (d_int k)) in
+  let m = List.map int_of_nat m in
+  let show l = String.concat "," (List.map string_of_int l) in
+  if m = applied then (List.length applied, [])
+  else (List.length applied, [Printf.sprintf "kind=overflow cap=%d k=%d applied=[%s] model=[%s] model_lost=%d" (d_int cap) (d_int k) (show applied) (show m) (int_of_nat lost)])
+
+let handle (x : t) : (int * string list) option =
+  match x with
+  | L [I 17; cap; k; a] -> Some (cmd_burst cap k a)
+  | _ -> handle x
